@@ -96,6 +96,10 @@ func LoadWorld(repo, harnessDir string) (*World, error) {
 }
 
 func (w *World) allowed(fn *ssa.Function) bool {
+	if fn.Synthetic != "" && fn.Pkg == nil {
+		// wrappers for promoted / bound methods and thunks only forward
+		return true
+	}
 	p := fn.Pkg
 	if p == nil {
 		// synthetic wrappers / generic instantiations: look at origin or receiver
